@@ -50,7 +50,7 @@ CHECKS.update({
  "C09": ("exploration", "Hypothesis-generated handler-duration patterns / start frames / periods / link sets run through the real worker loop under a virtual monotonic clock; absolute-deadline reference model",
          "The harness owns time (monotonic_ns, Event.wait, Thread are doubles), so tick times are exact integers: every tick's frame number, time, indication payload/recipient/ordering is compared with the model over generated duration patterns incl. overruns, wraps and restarts.",
          "Sending takes no virtual time; P may be 4 614 999..4 615 001 ns but must be constant within a run.", "3/C09"),
- "C14": ("exploration", "Hypothesis raw-input fuzzing of every receive path with an 'only ValueError / nothing escapes' oracle, hostile-input sessions with recovery script checked against TrxModel, and action-sequence fuzzing of the unmodified trx_if.c callbacks under ASan/UBSan",
+ "C14": ("exploration", "Hypothesis raw-input and structured-mutation fuzzing of every receive path ('only ValueError / nothing escapes'), hostile-input sessions with a recovery script checked against TrxModel, an exhaustive boundary lattice of numeric TRXC arguments, coverage-guided atheris campaigns on byte-level targets, and Hypothesis action sequences + a libFuzzer target on the unmodified trx_if.c under ASan/UBSan",
          "Generated-input search over byte strings and structured mutations at every entry point, and over where in a valid session the hostile input arrives (each followed by traffic through the clock path and a strictly checked recovery); the trxcon side runs under sanitizers so out-of-bounds access is a visible failure.",
          "No MSan (stale-but-in-bounds reads are invisible); settings after hostile control input are unknown until the recovery script has run.", "3/C14"),
  "C16": ("exploration", "Hypothesis-generated protocol definitions (programs) instantiated as real codec objects and interpreted by an independent layout interpreter; round-trip, canonical re-encoding, length-exactness and negative tests per definition",
